@@ -744,12 +744,17 @@ impl SerializableValue {
 
                 // For now, parse the body string back to AST
                 // In a real implementation, we'd want to serialize/deserialize the AST properly
-                let body_ast = crate::expressions::pairs_to_expr(
-                    crate::parser::get_pairs(&s_lambda.body)?
-                        .next()
-                        .unwrap()
-                        .into_inner(),
-                )?;
+                let mut body_pairs = crate::parser::get_pairs(&s_lambda.body)?
+                    .next()
+                    .filter(|pair| pair.as_rule() == crate::parser::Rule::statement)
+                    .map(|statement| statement.into_inner())
+                    .ok_or_else(|| anyhow!("function body is empty"))?;
+                // The body must be a single expression (not a comment or an output declaration)
+                let body_pair = body_pairs
+                    .next()
+                    .filter(|pair| pair.as_rule() == crate::parser::Rule::expression)
+                    .ok_or_else(|| anyhow!("function body is not an expression"))?;
+                let body_ast = crate::expressions::pairs_to_expr(body_pair.into_inner())?;
 
                 let lambda = LambdaDef {
                     name: s_lambda.name.clone(),
